@@ -13,7 +13,20 @@ Definition hy_decode (bs : bytes) (oid : Z) : gval :=
 Definition hy_DecodeType (s : gslice) (oid : Z) : res gval := Ok (hy_decode (vis s) oid).
 (* "\000tn" ++ the type id as 4 little-endian bytes *)
 Definition ph_TypeName (oid : Z) : bytes := [x00; x74; x6e] ++ le_enc 4 oid.
-Definition i_ToLower (s : bytes) : bytes := map lower_byte s.
+(* strings.ToLower on the alphabet the generator uses: ASCII, and the Latin-1 letters U+00C0..U+00DE (UTF-8 C3 80..9E except
+   C3 97, the multiplication sign) which go to U+00E0..U+00FE; every other byte is kept *)
+Fixpoint i_ToLower (s : bytes) : bytes :=
+  match s with
+  | [] => []
+  | a :: r =>
+      match r with
+      | b :: r' =>
+          if (b2z a =? 195) && (128 <=? b2z b) && (b2z b <=? 158) && negb (b2z b =? 151)
+          then a :: z2b (b2z b + 32) :: i_ToLower r'
+          else lower_byte a :: i_ToLower r
+      | [] => [lower_byte a]
+      end
+  end.
 Definition i_range_order (l : list Z) : list Z := rev l.
 Definition i_slack (b : bytes) : bytes := [x00].
 
